@@ -191,9 +191,9 @@ def ranks(ctx, v, family):
     n = len(v)
     if sorted(r) != list(range(n)):
         ctx.fail('predicate', 'rank-is-a-permutation-of-0..n-1', 'knee_ranking.rank', case, dict(rank=r))
-    elif any(r[i] < r[j] and v[i] > v[j] for i in range(n) for j in range(n)):
+    elif (lambda o: any(v[o[i]] > v[o[i + 1]] for i in range(n - 1)))(sorted(range(n), key=r.__getitem__)):      # listed by rank, the values never decrease
         ctx.fail('predicate', 'rank-orders-the-values', 'knee_ranking.rank', case, dict(rank=r))
-    if len(set(v)) == n:
+    if len(set(v)) == n and n <= 600:           # the model's stable insertion sort is quadratic; longer inputs are judged by the predicates above
         m = core.parse_nats(d.call('rank', [core.rats(v)])[0])
         ctx.corr_checked += 1
         if m != r:
@@ -284,6 +284,25 @@ def run(ctx):
         elif u < 0.35:
             v = [a * 2.0 ** -40 for a in v]
         ranks(ctx, v, 'rank')
+    long_cases(ctx)
+
+
+def long_cases(ctx):
+    """LONG inputs (beyond 1024 / 4096 points): chunked, strided or blocked evaluation of the distance rows / the ranking"""
+    rng = ctx.rng
+    for _ in range(2 if ctx.tier == 'quick' else 20):
+        k = rng.choice([rng.randrange(1100, 1600), rng.randrange(4097, 4400)])
+        a, b = np.array(gp(rng, 16, 1.0)), np.array(gp(rng, 16, 1.0))
+        if np.all(a == b):
+            b = a + 1.0
+        distances(ctx, np.array([gp(rng, 64, 0.5) for _ in range(k)], float), a, b, 'long-segment')
+        n = rng.choice([rng.randrange(1100, 1600), rng.randrange(4097, 4400)])
+        x = np.cumsum([rng.choice([1, 2, 3]) for _ in range(n)]).astype(float)
+        y = np.array([rng.randrange(0, 300) * 0.5 for _ in range(n)])
+        left = rng.randrange(0, n // 4)
+        subrange(ctx, np.column_stack([x, y]), left, rng.randrange(n - n // 4, n), 'long-subrange')
+        m = rng.choice([rng.randrange(1100, 1600), rng.randrange(4097, 4400)])
+        ranks(ctx, rng.sample([i * 0.5 - 300.0 for i in range(3 * m)], m), 'long-rank')
 
 
 def replay(ctx, body):
